@@ -3,6 +3,6 @@
 # (used while something else is reading /repo); evidence written by this run is discarded.
 W=$1; P=$2; T=${3:-quick}
 cd /verif
-VERIF_REPO=$W ./check $P $T > /tmp/seedwt-$P-$(basename $W).log 2>&1; rc=$?
+VERIF_NOEVIDENCE=1 VERIF_REPO=$W ./check $P $T > /tmp/seedwt-$P-$(basename $W).log 2>&1; rc=$?
 git checkout -- evidence/$P.json 2>/dev/null
 echo "seedcheck $W $P rc=$rc $(grep -c '^VIOLATION' /tmp/seedwt-$P-$(basename $W).log) violations; $(tail -1 /tmp/seedwt-$P-$(basename $W).log)"
